@@ -86,11 +86,15 @@ func ParsePPSNALUnit(data []byte, spsMap map[uint32]*SPS) (*PPS, error) {
 			pps.SliceGroupChangeDirectionFlag = reader.ReadFlag()
 			pps.SliceGroupChangeRateMinus1 = reader.ReadExpGolomb()
 		case 6:
+			pps.PicSizeInMapUnitsMinus1 = reader.ReadExpGolomb()
 			// slice_group_id[i] has Ceil(Log2(num_slice_groups_minus1 +1) bits)
 			nrBits := bits.CeilLog2(pps.NumSliceGroupsMinus1 + 1)
 
-			for iGroup := uint(0); iGroup <= pps.NumSliceGroupsMinus1; iGroup++ {
+			for i := uint(0); i <= pps.PicSizeInMapUnitsMinus1; i++ {
 				sgi := reader.Read(nrBits)
+				if reader.AccError() != nil {
+					break
+				}
 				pps.SliceGroupID = append(pps.SliceGroupID, sgi)
 			}
 		}
